@@ -484,13 +484,14 @@ class IntronGraph:
 
             starting_intron = self.intron_collector.substitute(assignment.corrected_introns[0])
             read_start = assignment.corrected_exons[0][0]
-            if read_start >= starting_intron[0]:
-                # corner case when substituted intron appears to be shifted to the left
-                continue
             polyt_detected = assignment.strand == '-' and \
                              (assignment.polya_info.external_polyt_pos != -1 or
                               assignment.polya_info.internal_polyt_pos != -1)
-            if polyt_detected:
+            if read_start >= starting_intron[0]:
+                # corner case when substituted intron appears to be shifted to the left: the start is not used,
+                # the end of the read still is (as the start is in the mirror case below)
+                pass
+            elif polyt_detected:
                 polyt_starts[starting_intron][read_start] += 1
             elif not self.is_start_internal(starting_intron, read_start):
                 read_starts[starting_intron][read_start] += 1
